@@ -16,3 +16,4 @@ import OdcGeo.Props.GenC05.AlignUp
 import OdcGeo.Props.GenC05.AdjustBlocksize
 import OdcGeo.Props.GenC05.NormBlocksize
 import OdcGeo.Props.GenC05.NumOverviews
+import OdcGeo.Props.GenC05.CogMeta
